@@ -579,6 +579,12 @@ static void run_script(const std::vector<std::string> &lines) {
                 if ((orc || orc03) && !r.rejected) {
                     StepOut so;
                     if (orc) { oracle_shape(w, so, tainted); oracle_tet_queries(w, so); }
+                    // a cell accepted WITH topology check is a tetrahedron: exactly four distinct vertices
+                    if (orc && r.has && (nm == "AddC" || nm == "TAddCell4") && toks.at(1) == "1" && r.r >= 0 && r.r < (long)w.mesh.n_cells()) {
+                        std::set<int> vs;
+                        for (auto hf : w.mesh.cell(CH((int)r.r)).halffaces()) for (int v : hf_verts(w, hf)) vs.insert(v);
+                        if (vs.size() != 4) so.fail("C15", "the topology-checked add_cell accepted a cell with " + std::to_string(vs.size()) + " distinct vertices");
+                    }
                     if (orc && nm == "TCollapse") oracle_collapse_post(w, pre, (int)r.r, so);
                     if (nm == "TCollapse") oracle_collapse_props(w, pre, so, prop_names);
                     o << so.o.str();
